@@ -36,7 +36,7 @@ VARIABLES content,    \* read: what the file holds
           disposeAt,  \* read: the subscriber disposes while receiving its k-th chunk (0: never)
           items,      \* write / round: the items of the source
           errAt,      \* write: the source fails after that many items (-1: it completes)
-          target,     \* write: "path" | "object" | "unopenable"
+          target,     \* write: "path" | "bare" (a file name without directory part) | "object" | "unopenable"
           fpos,       \* read: elements consumed;  write: items consumed
           file,       \* write: what has been written
           fstate,     \* "none" | "open" | "closed"
@@ -70,7 +70,10 @@ Init ==
             /\ content = <<>> /\ disposeAt = 0
             /\ size \in (IF Which = "round" THEN Sizes ELSE {0})
             /\ errAt \in (IF Which = "write" THEN -1..Len(items) ELSE {-1})
-            /\ target \in (IF Which = "write" THEN {"path", "object", "unopenable"} ELSE {"path"})
+            /\ target \in (IF Which = "write" THEN {"path", "bare", "object", "unopenable"} ELSE {"path"})
+
+(* a str target: a path, or a bare file name relative to the working directory *)
+IsPath == target \in {"path", "bare"}
 
 Delivered == Cardinality({q \in 1..Len(out) : out[q][1] = "n"})
 
@@ -125,8 +128,8 @@ WItem ==
 WEnd ==             \* the source completes or fails: close (a path only), then forward
     /\ Which = "write" /\ fstate = "open" /\ ~done
     /\ (errAt = -1 /\ fpos = Len(items)) \/ (errAt # -1 /\ fpos = errAt)
-    /\ fstate' = IF target = "path" THEN "closed" ELSE "open"
-    /\ closedAtEnd' = (target = "path")
+    /\ fstate' = IF IsPath THEN "closed" ELSE "open"
+    /\ closedAtEnd' = IsPath
     /\ out' = Append(out, IF errAt = -1 THEN <<"c">> ELSE <<"e", 7>>)
     /\ done' = TRUE
     /\ UNCHANGED <<content, size, disposeAt, items, errAt, target, fpos, file, raised>>
@@ -172,7 +175,7 @@ WriteStatement ==
         /\ Delivered = 0
         /\ out = << (IF errAt = -1 THEN <<"c">> ELSE <<"e", 7>>) >>
         /\ file = Concat(SubSeq(items, 1, k))
-        /\ closedAtEnd = (target = "path")
+        /\ closedAtEnd = IsPath
         /\ ~raised
 
 RoundStatement ==
